@@ -211,7 +211,7 @@ Definition run_script (v : variant) (sc : script) : list sout :=
   ++ run_block v sc (build_limit (sc_calls sc)) (sc_sched sc).
 
 (* ---- wire format ----
-   script: n t u start budget  nb {bcall}  K {na {action}}  np {time label}  {sop}
+   script: n t u start budget cbk cbt  nb {bcall}  K {na {action}}  np {time label}  {sop}
      bcall  = 1 n | 2 T | 3 tree      tree = 0 | 1 n | 2 T | 3 tree tree | 4 tree tree
      action = kind x label            sop  = 1 k | 2 T | 3 time label
    A missing number reads as 0 (Cur::next in harness/src/lib.rs). *)
@@ -272,6 +272,8 @@ Definition dec_sop (l : list N) : option (sop * list N) :=
 Definition dec_script (l : list N) : script :=
   let '(start, r) := nx l in
   let '(bud, r) := nx r in
+  let '(_, r) := nx r in       (* cbk, cbt: the harness's "concurrent Builder::build" dimension; *)
+  let '(_, r) := nx r in       (* nothing the runtime does depends on it *)
   let '(calls, r) := dec_counted dec_bcall r in
   let '(pr, r) := dec_counted (dec_counted dec_action) r in
   let '(pre, r) := dec_counted dec_pair r in
